@@ -1,7 +1,7 @@
 (* C03 Range functions see exactly the window's samples and compute the reference value.
-   Property theorems only; proofs in RangeProofs.v. Partial: see the note below. *)
+   Property theorems only; proofs in RangeProofs.v and WindowProofs.v. *)
 From Coq Require Import List ZArith NArith Bool.
-From Verif Require Import Base Select Range RangeProofs.
+From Verif Require Import Base Select SelectProofs Range RangeProofs WindowProofs.
 Import ListNotations.
 Open Scope Z_scope.
 
@@ -19,11 +19,31 @@ Theorem C03_window_sorted : forall mint maxt ss, sorted_ts ss ->
 Proof. exact win_points_sorted. Qed.
 Print Assumptions C03_window_sorted.
 
-(* PARTIAL. The executable model Range.ms_scan mirrors scan.selectPoints (reuse
-   of the previous step's points), BufferedSeriesIterator/sampleRing and the
+(* The executable model Range.ms_scan mirrors scan.selectPoints (reuse of the
+   previous step's points), BufferedSeriesIterator/sampleRing (Seek with its
+   jump, the advance loop, eviction relative to the newest sample) and the
    ReduceDelta(min(range,step)) call; it is compared with the real engine on
    every run (count_over_time / last_over_time expose size and end of the
-   window). The theorem [ms_scan ... = map (window_at ...)] for every (range,
-   step, spacing) relation is not proved yet (invariants J1-J3 of DESIGN.md
-   appendix B); RangeProofs.first_step_example evaluates it on a concrete
-   layout with range > step, range < step, an offset and a staleness marker. *)
+   window). For every sample layout (strictly increasing timestamps, staleness
+   markers anywhere), every range >= 0, offset, step > 0, start and number of
+   steps, the windows it hands to the range function are exactly the
+   specification windows. *)
+Theorem C03_incremental_windows : forall ss range off step t0 n,
+  sorted_ts ss -> 0 <= range -> 0 < step ->
+  snd (ms_scan range off step (ms_reset ss range) (zgrid t0 step n)) =
+  map (window_at range off ss) (zgrid t0 step n).
+Proof. exact ms_scan_windows. Qed.
+Print Assumptions C03_incremental_windows.
+
+Theorem C03_grid : forall t step n,
+  zgrid t step n = map (fun k => t + Z.of_nat k * step) (seq 0 n).
+Proof. exact zgrid_map. Qed.
+Print Assumptions C03_grid.
+
+(* non-vacuity: range > step, range < step, an offset, a staleness marker *)
+Example C03_example :
+  let ss := [mkS 100 (Some 1); mkS 130 None; mkS 160 (Some 2); mkS 200 (Some 3); mkS 260 (Some 4)] in
+  and (sorted_ts ss)
+      (snd (ms_scan 60 0 30 (ms_reset ss 60) (zgrid 200 30 6)) =
+       [[(160, 2); (200, 3)]; [(200, 3)]; [(200, 3); (260, 4)]; [(260, 4)]; [(260, 4)]; []]).
+Proof. split; [simpl; repeat split; reflexivity|vm_compute; reflexivity]. Qed.
